@@ -241,6 +241,12 @@ class EndsWith(Matcher):
         return None
 
 
+def _type_name(a_type):
+    """The name of a class; the repr of anything else isinstance() accepts
+    (a tuple of classes, a union such as ``int | str``)."""
+    return getattr(a_type, "__name__", None) or repr(a_type)
+
+
 class IsInstance:
     """Matcher that wraps isinstance."""
 
@@ -249,7 +255,7 @@ class IsInstance:
 
     def __str__(self):
         return "{}({})".format(
-            self.__class__.__name__, ", ".join(type.__name__ for type in self.types)
+            self.__class__.__name__, ", ".join(_type_name(type) for type in self.types)
         )
 
     def match(self, other):
@@ -270,9 +276,9 @@ class NotAnInstance(Mismatch):
 
     def describe(self):
         if len(self.types) == 1:
-            typestr = self.types[0].__name__
+            typestr = _type_name(self.types[0])
         else:
-            typestr = "any of (%s)" % ", ".join(type.__name__ for type in self.types)
+            typestr = "any of (%s)" % ", ".join(_type_name(type) for type in self.types)
         return f"'{self.matchee}' is not an instance of {typestr}"
 
 
@@ -307,8 +313,8 @@ class Contains(Matcher):
         try:
             if self.needle not in matchee:
                 return DoesNotContain(matchee, self.needle)
-        except TypeError:
-            # e.g. 1 in 2 will raise TypeError
+        except (TypeError, ValueError):
+            # e.g. 1 in 2 will raise TypeError, 256 in b"a" ValueError
             return DoesNotContain(matchee, self.needle)
         return None
 
